@@ -14,11 +14,16 @@ Driver mode c06 (DESIGN.md section 6, C06). Per history (one CASE):
 import Driver.Proto
 import AdaptaVerif.Model.ActionQueue
 import AdaptaVerif.Check.RouteRect
+import AdaptaVerif.Model.Reroute
 namespace Driver.C06
 open Driver AdaptaVerif.Num AdaptaVerif.Model.ActionQueue
 open AdaptaVerif.Check.RouteRect (P Rect segHitsOpenRect routeValidRect)
 
 abbrev Pts := Array Pt
+abbrev GPt := AdaptaVerif.Model.Geometry.Pt
+open AdaptaVerif.Model
+
+def toG (p : Pt) : GPt := ⟨p.x, p.y⟩
 
 def toP (p : Pt) : P := ⟨p.x, p.y⟩
 
@@ -196,6 +201,12 @@ structure Txn where
   ve : Array Edge := #[]
   ie : Array Edge := #[]
   dumped : Bool := false
+  rp : List (Nat × Bool) := []                       -- needsRepaint()
+  rv : List (Nat × List (Nat × Nat)) := []           -- (Point::id, Point::vn) of route()
+  hk : List (Nat × Bool × Bool × Rat × Bool) := []   -- hook: needsReroute, falsePath, routeDist, staticInvalidated
+  pf : List (Nat × Bool × Bool × Rat) := []          -- hook: the same members after the transaction
+  hook : Bool := false
+  ran : Nat := 2
 
 structure St where
   model : State := init
@@ -211,6 +222,15 @@ structure St where
   staleSeen : List (Nat × Pts × String) := []   -- (conn, route, class) of stale routes already reported
   dirty : List Nat := []                   -- obstacles added / moved since the last checked processing point
   lastOp : String := ""
+  rst : Reroute.RState := {}                -- model of the reroute flags / edge registrations
+  rpPrev : List (Nat × List GPt) := []      -- routing polygons at the previous observation
+  rpCur : List (Nat × List GPt) := []       -- … being collected in the current observation
+  pendingTxn : Option State := none         -- model: the current call processes this (pre-)state
+  settingsDirty : Bool := true              -- Router::m_settings_changes (setRoutingParameter at construction)
+  pendingSettings : Bool := false           -- processTransaction() with an empty queue but a settings change pending
+  rerouteOff : Bool := false                -- the reroute model lost track (see `op` handling); no further comparison
+  twoBatches : Bool := false                -- the current call runs two transactions (new JunctionRef, transactions off)
+  decided : Option Reroute.RState := none   -- model: flags with which routing starts
   stats : List (String × Nat) := []
   checkedTxns : Nat := 0
   bentRoutes : Nat := 0
@@ -308,8 +328,125 @@ def throughTwoCorners (rc : Rect) (a b : Pt) : Bool :=
   let corners : List Pt := [⟨rc.x0, rc.y0⟩, ⟨rc.x1, rc.y0⟩, ⟨rc.x1, rc.y1⟩, ⟨rc.x0, rc.y1⟩]
   (corners.filter fun c => cross a b c == 0 && dot a c b ≥ 0).length ≥ 2
 
+/-! ### the reroute decision (Model/Reroute.lean) against `needsRepaint()` and the hook -/
+
+def lt3 : Reroute.Lt3 := Reroute.estLess 64 (1 / 1000000000)
+
+def polysOf (l : List (Nat × List GPt)) : Reroute.Polys := fun id => (lookup l id).getD []
+
+def manhattanLen (r : List GPt) : Rat :=
+  ((AdaptaVerif.Check.Route.legs r).map fun l => absR (l.1.x - l.2.x) + absR (l.1.y - l.2.y)).foldl (· + ·) 0
+
+/-- is `d` (a double) the cached length of `route` up to 1e-9 -/
+def distMatches (poly : Bool) (route : List GPt) (d : Rat) : Bool :=
+  let e : Rat := 1 / 1000000000
+  if poly then Reroute.routeLo 64 route - e ≤ d && d ≤ Reroute.routeHi 64 route + e
+  else absR (d - manhattanLen route) ≤ e
+
+/-- the routing polygon the model expects for an obstacle (exact for shapeBufferDistance 0) -/
+def routingPolyOk (buf : Rat) (o : Obst) (rp : List GPt) : Bool :=
+  if o.isJ then
+    match o.geom with
+    | [c] =>
+      let q : List Pt := [⟨c.x + 1, c.y - 1⟩, ⟨c.x + 1, c.y + 1⟩, ⟨c.x - 1, c.y + 1⟩, ⟨c.x - 1, c.y - 1⟩]
+      if buf == 0 then rp == q.map toG
+      else rp.length == 4 && (q.zip rp).all fun (a, b) =>
+        (near b.x (a.x + buf) || near b.x (a.x - buf)) && (near b.y (a.y + buf) || near b.y (a.y - buf))
+    | _ => false
+  else if buf == 0 then rp == o.geom.map toG
+  else match rectOfPoly o.geom with
+    | some rc => rp.length == o.geom.length && (o.geom.zip rp).all fun (g, b) =>
+        let q := offsetCorner rc buf g; near q.x b.x && near q.y b.y
+    | none => false
+
+def pathOf (cid : Nat) (r : Pts) (ids : List (Nat × Nat)) : List (GPt × Reroute.VKey) :=
+  let n := r.size
+  (r.toList.zip ids).mapIdx fun i (p, (oid, vn)) =>
+    let k : Reroute.VKey := if i == 0 then Reroute.VKey.ofEnd cid .src
+      else if i + 1 == n then Reroute.VKey.ofEnd cid .tar else ⟨oid, vn, false⟩
+    (toG p, k)
+
+def checkReroute (s : St) (t : Txn) : St := Id.run do
+  let mut s := s
+  let sc := s.model.scene
+  if s.rerouteOff then return s.bump "reroute.model-lost-track"
+  -- two transactions in one call: the hook reported the connectors twice; the second batch is the one compared
+  let t := if s.twoBatches && t.hook && t.hk.length == 2 * s.rst.conns.length
+    then { t with hk := t.hk.take s.rst.conns.length } else t
+  match s.decided with
+  | none =>
+    -- the model says: nothing was processed, so no connector is looked at
+    if t.ran == 1 then
+      s := s.setFail (.diverge s!"reroute tie after {s.lastOp}: processTransaction() returned true but the model's queue was empty")
+    if !t.hk.isEmpty then
+      s := s.setFail (.diverge s!"reroute tie after {s.lastOp}: rerouteAndCallbackConnectors ran although the model's queue was empty")
+    return s.bump "reroute.no-transaction"
+  | some d =>
+    s := s.bump "reroute.transactions"
+    if t.ran == 0 then
+      s := s.setFail (.diverge s!"reroute tie after {s.lastOp}: processTransaction() returned false but the model processed a non-empty queue")
+    let mut rst := d
+    for c in d.conns do
+      let both := Reroute.bothEnds sc c.id
+      let implRp := (lookup t.rp c.id).getD false
+      -- (1) which connectors were rerouted
+      let expect : Option Bool := if !both then some false else c.flag3
+      match expect with
+      | none => s := s.bump "reroute.too-close-to-call"
+      | some e =>
+        s := s.bump (if e then "reroute.flagged" else "reroute.skipped")
+        if e != implRp then
+          let why := if c.falsePath then "falsePath" else if c.needsReroute then "needsReroute" else "nothing"
+          s := s.setFail (.diverge s!"reroute-set conn={c.id} after-op={s.lastOp}: model says the connector is {if e then "rerouted" else "not looked at"} (model flags: {why}, both ends: {both}), needsRepaint()={implRp}")
+      -- (2) the hook: flags before routing, cached route length, static-graph flag
+      if t.hook then
+        match t.hk.find? (·.1 == c.id) with
+        | none => s := s.setFail (.diverge s!"reroute-hook conn={c.id} after-op={s.lastOp}: connector not reported by verifRerouteSink")
+        | some (_, needs, fp, dist, stat) =>
+          s := s.bump "reroute.hook-compared"
+          if fp != c.falsePath then
+            s := s.setFail (.diverge s!"reroute-hook conn={c.id} after-op={s.lastOp}: m_false_path={fp}, model {c.falsePath}")
+          else if !(c.unsure && !c.needsReroute) && needs != c.needsReroute then
+            s := s.setFail (.diverge s!"reroute-hook conn={c.id} after-op={s.lastOp}: m_needs_reroute_flag={needs}, model {c.needsReroute}")
+          else if !stat then
+            s := s.setFail (.diverge s!"reroute-hook after-op={s.lastOp}: m_static_orthogonal_graph_invalidated is false at the start of rerouting")
+          else if !c.route.isEmpty && !distMatches c.poly c.route dist then
+            s := s.setFail (.diverge s!"reroute-hook conn={c.id} after-op={s.lastOp}: m_route_dist={showR dist} is not the length of the current route ({showR (Reroute.routeLo 64 c.route)})")
+      -- (3) the model follows the routing: new route, registrations on the edges of the path
+      let rerouted := match expect with | some e => e | none => implRp
+      if rerouted then
+        match lookup t.rr c.id, lookup t.rv c.id with
+        | some r, some ids =>
+          if ids.length != r.size || r.size < 2 then
+            s := s.setFail (.diverge s!"reroute tie: unusable rv line for connector {c.id}")
+          else
+            rst := Reroute.routedOne c.id (pathOf c.id r ids) rst
+            if r.size ≥ 3 then s := s.bump "reroute.registered-bent-path"
+        | _, _ => s := s.setFail (.diverge s!"reroute tie: no route printed for rerouted connector {c.id}")
+    rst := Reroute.clearUnsure rst
+    -- (4) hook: members after the transaction
+    if t.hook then
+      for c in rst.conns do
+        match t.pf.find? (·.1 == c.id) with
+        | none => pure ()
+        | some (_, needs, fp, dist) =>
+          if needs != c.needsReroute then
+            if needs && Reroute.bothEnds sc c.id then
+              -- generatePath found no path: the flag stays up; the model follows (counted)
+              s := s.bump "reroute.path-not-found"
+              rst := { rst with conns := Reroute.invalidate c.id rst.conns }
+            else
+              s := s.setFail (.diverge s!"reroute-hook conn={c.id} after-op={s.lastOp}: after routing m_needs_reroute_flag={needs}, model {c.needsReroute}")
+          else if fp != c.falsePath then
+            s := s.setFail (.diverge s!"reroute-hook conn={c.id} after-op={s.lastOp}: after routing m_false_path={fp}, model {c.falsePath}")
+          else if !c.route.isEmpty && !distMatches c.poly c.route dist then
+            s := s.setFail (.diverge s!"reroute-hook conn={c.id} after-op={s.lastOp}: after routing m_route_dist={showR dist} is not the length of the route ({showR (Reroute.routeLo 64 c.route)})")
+    return { s with rst := rst }
+
 def checkTxn (s : St) : St := Id.run do
   let t := s.txn
+  let s := checkReroute s t
+  let s := { s with decided := none }
   let mut s := { s with txn := {}, inTxn := false }
   if !s.model.queue.isEmpty then
     -- the router is in the middle of a transaction (move folded into a queued Add while transactions
@@ -460,7 +597,24 @@ def stepLine (s : St) (l : Array String) : St :=
         let dirty := match op with
           | .addObst _ id _ | .moveAbs _ id _ _ | .moveRel _ id _ _ => id :: s.dirty
           | _ => s.dirty
-        { s with model := step s.model op, noopExpected := noop, lastOp := opName op, dirty := dirty }
+        let rst := match op with
+          | .newConn id => Reroute.addConn (!s.orth) id s.rst
+          | _ => s.rst
+        let pend := Reroute.txnOf s.model op
+        let s := if pend.isSome && s.pendingTxn.isSome then
+            s.setFail (.diverge "two processing calls within one observation") else s
+        -- `new JunctionRef` with transactions off runs two transactions (pin registration, then the JunctionAdd);
+        -- the first must have nothing to do, else its routes are not observable
+        let (two, lost) := match op with
+          | .addObst true _ _ => if !s.model.useTxn then
+              (true, !s.model.queue.isEmpty || (s.rst.conns.any fun c => c.poly && c.flagged && Reroute.bothEnds s.model.scene c.id)) else (false, false)
+          | _ => (false, false)
+        let s := if lost then { s with rerouteOff := true } else s
+        let s := { s with twoBatches := two }
+        let settingsOnly := pend.isNone && s.settingsDirty && (match op with | .processTransaction => true | _ => false)
+        { s with model := step s.model op, noopExpected := noop && !settingsOnly, lastOp := opName op, dirty := dirty, rst := rst,
+                 pendingTxn := if pend.isSome then pend else s.pendingTxn,
+                 pendingSettings := s.pendingSettings || settingsOnly }
   | "os" =>
     match parsePts rest 3 with
     | some g => { s with obsO := { id := nat! (rest[0]?.getD "0"), isJ := rest[1]?.getD "0" == "1",
@@ -472,7 +626,27 @@ def stepLine (s : St) (l : Array String) : St :=
       { s with obsC := { id := nat! (rest[0]?.getD "0"), src := if rest[1]?.getD "0" == "1" then some a else none,
                          dst := if rest[4]?.getD "0" == "1" then some b else none } :: s.obsC }
     | _, _ => s.setFail (.diverge "unparsable oc line")
+  | "orp" =>
+    match parsePts rest 1 with
+    | some g => { s with rpCur := (nat! (rest[0]?.getD "0"), g.toList.map toG) :: s.rpCur }
+    | none => s.setFail (.diverge "unparsable orp line")
   | "oe" =>
+    -- routing polygons: tie to the model's geometry, then the reroute decision of this call
+    let s := Id.run do
+      let mut s := s
+      for o in s.model.scene.obsts do
+        match lookup s.rpCur o.id with
+        | some rp =>
+          if !routingPolyOk s.buf o rp then
+            s := s.setFail (.diverge s!"routing-polygon tie after {s.lastOp}: obstacle {o.id} has routingPolygon() {showPts (rp.map fun p => (⟨p.x, p.y⟩ : Pt)).toArray}")
+        | none => s := s.setFail (.diverge s!"routing-polygon tie after {s.lastOp}: obstacle {o.id} not reported")
+      -- `processTransaction` also runs (with an empty action list) when a routing parameter was set since
+      -- the last transaction (`m_settings_changes`; the ActionQueue model leaves settings out)
+      let decided := match s.pendingTxn with
+        | some pre => some (Reroute.flagTxn lt3 (polysOf s.rpPrev) (polysOf s.rpCur) (sortActions pre.queue) s.rst)
+        | none => if s.pendingSettings then some (Reroute.flagTxn lt3 (polysOf s.rpPrev) (polysOf s.rpCur) [] s.rst) else none
+      return { s with decided := decided, pendingTxn := none, pendingSettings := false,
+                      settingsDirty := s.settingsDirty && decided.isNone, rpPrev := s.rpCur, rpCur := [] }
     let implO := sortBy Obst.id s.obsO
     let implC := sortBy Conn.id s.obsC
     let modO := sortBy Obst.id s.model.scene.obsts
@@ -498,6 +672,21 @@ def stepLine (s : St) (l : Array String) : St :=
                else if key == "fr" then { t with fr := t.fr ++ [e] } else { t with fd := t.fd ++ [e] }
       { s with txn := t }
     | none => s.setFail (.diverge s!"unparsable {key} line (non-finite coordinate?)")
+  | "rp" => { s with txn := { s.txn with rp := (nat! (rest[0]?.getD "0"), rest[1]?.getD "0" == "1") :: s.txn.rp } }
+  | "rv" =>
+    let n := nat! (rest[1]?.getD "0")
+    let ids := (List.range n).map fun j => (nat! (rest[2 + 2 * j]?.getD "0"), nat! (rest[3 + 2 * j]?.getD "0"))
+    { s with txn := { s.txn with rv := (nat! (rest[0]?.getD "0"), ids) :: s.txn.rv } }
+  | "hk" =>
+    match num? (rest[3]?.getD "") with
+    | some d => { s with txn := { s.txn with hk := (nat! (rest[0]?.getD "0"), rest[1]?.getD "0" == "1", rest[2]?.getD "0" == "1", d, rest[4]?.getD "0" == "1") :: s.txn.hk } }
+    | none => s.setFail (.diverge "unparsable hk line")
+  | "pf" =>
+    match num? (rest[3]?.getD "") with
+    | some d => { s with txn := { s.txn with pf := (nat! (rest[0]?.getD "0"), rest[1]?.getD "0" == "1", rest[2]?.getD "0" == "1", d) :: s.txn.pf } }
+    | none => s.setFail (.diverge "unparsable pf line")
+  | "hook" => { s with txn := { s.txn with hook := rest[0]?.getD "0" == "1" } }
+  | "ran" => { s with txn := { s.txn with ran := nat! (rest[0]?.getD "2") } }
   | "ve" =>
     match parseEdge rest false with
     | some e => { s with txn := { s.txn with ve := s.txn.ve.push e } }
